@@ -1,4 +1,4 @@
-import KyberModel.Lib.Embed
+import KyberModel.Lib.EmbedShape
 import KyberModel.Lib.Ed25519
 import KyberModel.Props.C04
 import KyberModel.Groups.HashToCurve
@@ -29,7 +29,7 @@ open Kyber Kyber.EmbedLib Kyber.DecodeLib
 
 /-! ### Ed25519 (both implementations share the specification) -/
 namespace Ed25519
-open Kyber.Ed25519 Kyber.Edwards
+open Kyber.Ed25519 Kyber.Edwards Kyber.EmbedLib.Ed
 
 /-- The result is determined by the bytes consumed: replacing everything after them changes nothing. -/
 theorem embed_deterministic (d : Option Bytes) (s t : Bytes) (P : Pt) (m : Nat)
@@ -59,29 +59,6 @@ theorem embed_order (d s : Bytes) (P : Pt) (m : Nat) (h : embed (some d) s = som
     split_ifs at ht with h1
     cases ht
     exact ⟨h1, C04.Ed25519.dec_valid _ _ hQ⟩
-
-/-- `d.take (min n d.length) = d.take n`. -/
-theorem take_min_length {α : Type} (d : List α) (n : Nat) : d.take (min n d.length) = d.take n := by
-  by_cases hd : n ≤ d.length
-  · rw [Nat.min_eq_left hd]
-  · have hd' : d.length ≤ n := by omega
-    rw [Nat.min_eq_right hd', List.take_of_length_le (le_refl _), List.take_of_length_le hd']
-
-/-- The candidate after placing length byte and data. -/
-theorem embedCand_eq (d blk : Bytes) (hl : blk.length = 32) :
-    embedCand (some d) blk =
-      UInt8.ofNat (min embedLen d.length) :: (d.take embedLen ++ blk.drop (1 + min embedLen d.length)) ∧
-    (embedCand (some d) blk).length = 32 := by
-  have hel : embedLen = 29 := rfl
-  have hdl : min embedLen d.length ≤ 29 := by omega
-  have e : embedCand (some d) blk =
-      UInt8.ofNat (min embedLen d.length) :: (d.take embedLen ++ blk.drop (1 + min embedLen d.length)) := by
-    show UInt8.ofNat (min embedLen d.length) :: (d.take (min embedLen d.length) ++ blk.drop (1 + min embedLen d.length)) = _
-    rw [take_min_length]
-  refine ⟨e, ?_⟩
-  rw [e]
-  simp only [List.length_cons, List.length_append, List.length_take, List.length_drop, hl]
-  omega
 
 /-- `Data (Embed d) = d.take EmbedLen`. -/
 theorem embed_data (d s : Bytes) (P : Pt) (m : Nat) (h : embed (some d) s = some (P, m)) :
@@ -203,7 +180,7 @@ end Ed25519
 
 /-! ### P-256 -/
 namespace P256
-open Kyber.P256 Kyber.Weierstrass
+open Kyber.P256 Kyber.Weierstrass Kyber.EmbedLib.P256s
 
 theorem embed_deterministic (d : Option Bytes) (s t : Bytes) (P : Nat × Nat) (m : Nat)
     (h : embed d s = some (P, m)) : embed d (s.take m ++ t) = some (P, m) := by
@@ -214,17 +191,6 @@ theorem embed_deterministic (d : Option Bytes) (s t : Bytes) (P : Nat × Nat) (m
   · simp; omega
   · simp [List.length_take, Nat.min_eq_left hm]
   · simp; omega
-
-theorem p_pos : 0 < p := by norm_num [p]
-theorem p_lt : p < 256 ^ 32 := by norm_num [p]
-
-/-- Shape of an accepted candidate. -/
-theorem embedTry_some (d : Option Bytes) (blk : Bytes) (x y : Nat) (h : embedTry d blk = some (x, y)) :
-    x = decodeBE (embedCand d (blk.take 32)) ∧ x < p ∧ y * y % p = rhs x := by
-  unfold embedTry at h
-  split_ifs at h with h1
-  obtain ⟨rfl, rfl⟩ := Prod.mk.inj (Option.some.inj h)
-  exact ⟨rfl, h1.2, h1.1⟩
 
 /-- The returned coordinates are a point of the curve with `x` in the field. -/
 theorem embed_valid (d : Option Bytes) (s : Bytes) (x y m : Nat) (h : embed d s = some ((x, y), m)) :
@@ -254,7 +220,7 @@ theorem embed_data (d s : Bytes) (x y m : Nat) (h : embed (some d) s = some ((x,
   have hce : embedCand (some d) (blk.take 32) =
       (blk.take 32).take (31 - min embedLen d.length) ++ (d.take embedLen ++ [UInt8.ofNat (min embedLen d.length)]) := by
     show (blk.take 32).take (31 - min embedLen d.length) ++ (d.take (min embedLen d.length) ++ [UInt8.ofNat (min embedLen d.length)]) = _
-    rw [Ed25519.take_min_length]
+    rw [EmbedLib.Ed.take_min_length]
   have hlen1 : ((blk.take 32).take (31 - min embedLen d.length)).length = 31 - min embedLen d.length := by
     simp only [List.length_take]; omega
   have hlen2 : (d.take embedLen).length = min embedLen d.length := by simp [List.length_take]
@@ -286,7 +252,7 @@ end P256
 
 /-! ### BN256 G1 -/
 namespace BN256
-open Kyber.BN256 Kyber.Weierstrass
+open Kyber.BN256 Kyber.Weierstrass Kyber.EmbedLib.BN256s
 
 theorem embed_deterministic (d : Option Bytes) (s t : Bytes) (P : Nat × Nat) (m : Nat)
     (h : embed d s = some (P, m)) : embed d (s.take m ++ t) = some (P, m) := by
@@ -297,15 +263,6 @@ theorem embed_deterministic (d : Option Bytes) (s t : Bytes) (P : Nat × Nat) (m
   · simp; omega
   · simp [List.length_take, Nat.min_eq_left hm]
   · simp; omega
-
-theorem p_pos : 0 < p := by norm_num [p]
-
-theorem embedTry_some (d : Option Bytes) (blk : Bytes) (x y : Nat) (h : embedTry d blk = some (x, y)) :
-    x = decodeBE (embedCand d blk) % p ∧ y * y % p = rhs x := by
-  unfold embedTry at h
-  split_ifs at h with h1
-  obtain ⟨rfl, rfl⟩ := Prod.mk.inj (Option.some.inj h)
-  exact ⟨rfl, h1⟩
 
 theorem embed_valid (d : Option Bytes) (s : Bytes) (x y m : Nat) (h : embed d s = some ((x, y), m)) :
     onCurve curve (some (x, y)) = true ∧ x < p := by
@@ -328,7 +285,7 @@ theorem embed_data (d s : Bytes) (x y m : Nat) (h : embed (some d) s = some ((x,
   have hce : embedCand (some d) blk =
       UInt8.ofNat (min embedLen d.length) :: (d.take embedLen ++ blk.drop (1 + min embedLen d.length)) := by
     show UInt8.ofNat (min embedLen d.length) :: (d.take (min embedLen d.length) ++ blk.drop (1 + min embedLen d.length)) = _
-    rw [Ed25519.take_min_length]
+    rw [EmbedLib.Ed.take_min_length]
   have hcl : (embedCand (some d) blk).length = 32 := by
     rw [hce]; simp only [List.length_cons, List.length_append, List.length_take, List.length_drop, hl]; omega
   have h0 : (UInt8.ofNat (min embedLen d.length)).toNat = min embedLen d.length := by
@@ -373,7 +330,7 @@ theorem embed_data (d s : Bytes) (x y m : Nat) (h : embed (some d) s = some ((x,
   rw [List.take_take]
   have : min (min embedLen d.length) embedLen = min embedLen d.length := by omega
   rw [this]
-  exact Ed25519.take_min_length d embedLen
+  exact EmbedLib.Ed.take_min_length d embedLen
 
 end BN256
 
@@ -411,8 +368,6 @@ end Residue
 namespace H2C
 open Kyber.H2C
 
-theorem sha512_length (m : Bytes) : (Sha512.hash m).length = 64 := by
-  simp [Sha512.hash, Sha512.out64]
 
 /-- `expand_message_xmd` returns exactly the requested number of bytes (when it does not refuse). -/
 theorem expandXmd_length (msg dst out : Bytes) (len : Nat) (h : expandXmd msg dst len = some out) :
